@@ -45,6 +45,11 @@ def _mk(pendulum, z, inst, clone=False):
     return obs.utc_dt(pendulum, inst).in_timezone(_tz(pendulum, z, clone))
 
 
+def _flip(pendulum, x):
+    y = pendulum.DateTime(*obs.fields(x), tzinfo=x.tzinfo, fold=1 - x.fold)
+    return y if obs.offset_s(y) == obs.offset_s(x) else None
+
+
 def _within(got, want):
     if abs(want) < LIM:
         return got == want
@@ -73,6 +78,15 @@ def check_pair(acc, pendulum, za, ia, zb, ib, clone_b=False, native=True):
              ("abs", lambda: abs(b - a), abs(diff)),
              ("absolute=True", lambda: pendulum.interval(a, b, absolute=True), abs(diff)),
              ("diff-default", lambda: a.diff(b), abs(diff))]
+    if za is not None and not clone_b:
+        # the same endpoints with the other raw fold flag where it is inert (an unambiguous wall time built by
+        # pendulum.datetime() carries fold=1, a converted one fold=0): same instants, same length
+        a2, b2 = _flip(pendulum, a), _flip(pendulum, b)
+        if a2 is not None or b2 is not None:
+            a2 = a if a2 is None else a2
+            b2 = b if b2 is None else b2
+            forms.append(("sub-inert-fold", lambda: b2 - a2, diff))
+            forms.append(("abs-inert-fold", lambda: a2.diff(b2), abs(diff)))
     if native and za is not None:
         # endpoints that carry a stdlib tzinfo (results of astimezone(<stdlib tz>)): same instants, same length
         try:
